@@ -105,6 +105,7 @@ def _run_unit(args):
             timeout_ms=opts.get("timeout_ms", 60000),
             max_paths=opts.get("max_paths", 200000),
             seed=opts.get("seed", 0),
+            cross_every=int(os.environ.get("SX_CROSSCHECK", opts.get("cross_every", 0)) or 0),
         )
         ctx = H.SymCtx(sym)
         deadline = t0 + opts.get("unit_budget_s", 3600)
@@ -154,6 +155,8 @@ def _run_unit(args):
         except core.PathLimit as ex:
             res["inconclusive"] = f"PathLimit: {ex}"
         res["stats"] = eng.stats.as_dict()
+        for cf in eng.cross_faults:
+            res["engine_faults"].append({"note": "second solver disagrees", **cf})
         # replay the solver's counterexamples on the genuine package
         seen = set(v["sig"] for v in res["violations"])
         for cex in eng.cexs:
@@ -217,6 +220,8 @@ def main(mod, argv=None):
         units = [u for u in units if a.only in u["name"]]
     opts = dict(getattr(mod, "OPTIONS", {}).get(tier, {}))
     opts["seed"] = seed
+    if tier == "thorough":
+        opts.setdefault("cross_every", 400)  # sampled queries are re-decided by z3 4.8.12 and cvc5
     # cheapest first keeps the pool busy at the tail; order is otherwise irrelevant to the verdict
     order = list(range(len(units)))
     if seed:
@@ -304,6 +309,7 @@ def report(mod, prop, tier, seed, units, results, wall, extra):
         "solver_unsat": tot.unsat,
         "solver_unknown": tot.unknown,
         "solver_s": round(tot.solver_s, 2),
+        "second_solver": {"queries_rechecked_x2": tot.cross_checked, "agreed": tot.cross_agreed, "disagreed": tot.cross_disagreed, "other_solver_unknown_or_timeout": tot.cross_other_inconclusive, "solvers": "z3 4.8.12 (/usr/bin/z3), cvc5 1.0 binary; ours: z3 5.1 python"},
         "units": len(units),
         "units_run": len(results),
         "functions_encoded": sorted(functions),
